@@ -40,9 +40,10 @@ POWER = {"adjacency": 0, "border_len": 2, "center_distances": 1}
 
 
 def analyse(ctx, repo, prop, nb_ctx):
-    nb_val = n_b if nb_ctx == "sym" else Poly.const(1)
+    small = isinstance(nb_ctx, int)          # thorough tier: tiny rotation grids (estimated cell model), n_b in {2, 3}
+    nb_val = n_b if nb_ctx == "sym" else Poly.const(nb_ctx if small else 1)
     hooks = GeoHooks(repo, nb_val, n_o, n_t, bounds={"n_b": 4, "n_o": 4, "n_t": 2},
-                     b_alg="cube4D" if nb_ctx == "sym" else "zero4D", o_alg="ico")
+                     b_alg="cube4D" if (nb_ctx == "sym" or small) else "zero4D", o_alg="ico")
     interp = Interp(repo, hooks, max_depth=20)
     fg = build_fullgrid(repo, interp, Const("b"), Const("o"), Const("t"), factor=Num(f))
     getter = GETTERS[prop]
@@ -51,7 +52,7 @@ def analyse(ctx, repo, prop, nb_ctx):
         ctx.analysed(fn_)
     ctx.call_sites += len(interp.functions_entered)
     where = "molgri/space/fullgrid.py:FullGrid._get_N_N"
-    tag = f"C02.{prop}.{'nb' if nb_ctx == 'sym' else 'nb1'}"
+    tag = f"C02.{prop}.{'nb' if nb_ctx == 'sym' else ('nb%d' % nb_ctx if small else 'nb1')}"
     N = nb_val * n_o * n_t
     org, _ = underlying(res)
     if not (isinstance(org, Term) and org.op == "spadd"):
@@ -166,7 +167,22 @@ def analyse(ctx, repo, prop, nb_ctx):
         A, m = bd
         ctx.check(m == M, "LAYOUT", f"{tag}.pos.count", "one rotation block per position cell (n_t*n_o diagonal blocks)", where,
                   witness=f"{m.pretty()} blocks")
-        if nb_ctx == "sym":
+        if small:
+            # estimated cell model of the tiny rotation grid: every pair of distinct cells is adjacent (block = 1 - I), no metric factor
+            sh = T.sparse_shape(interp, A) if isinstance(A, (ObjV, Term)) else None
+            if sh is None:
+                ctx.inconclusive("LAYOUT", f"{tag}.pos.blockshape", "shape of the tiny rotation block not derived", where)
+            else:
+                ctx.check(sh == (nb_val, nb_val), "LAYOUT", f"{tag}.pos.blockshape", f"tiny rotation grid: ({nb_ctx}, {nb_ctx}) block", where, witness=str(sh))
+            ao, _ = underlying(A) if isinstance(A, (ObjV, Term)) else (None, None)
+            txt = vstr(ao) if ao is not None else vstr(A)
+            ctx.instance("FLOW")
+            if contains_top(ao if ao is not None else A):
+                ctx.inconclusive("FLOW", f"{tag}.pos.source", "rotation block of the tiny grid not derived", where, witness=contains_top(ao if ao is not None else A))
+            else:
+                ctx.check("f" not in {a_[1] for a_ in _sym_atoms(ao)} , "FLOW", f"{tag}.pos.source", "the block of the estimated cell model "
+                          "carries no metric factor", where, witness=txt[:150])
+        elif nb_ctx == "sym":
             ao, aobj = underlying(A) if isinstance(A, (ObjV, Term)) else (None, None)
             nm = ao.args[0].v if isinstance(ao, Term) and ao.op == "input" else None
             ctx.instance("FLOW")
@@ -181,12 +197,29 @@ def analyse(ctx, repo, prop, nb_ctx):
                           "the rotation block is requested folded (include_opposing_neighbours=True) and restricted to the N "
                           "rotations (only_upper=True)", where, "_calculate_N_N_array(sel_property=...)", witness=f"only_upper={vstr(ou)}, include_opposing_neighbours={vstr(io)}")
                 sh = T.sparse_shape(interp, aobj) if aobj is not None else None
-                ctx.check(sh == (n_b, n_b), "LAYOUT", f"{tag}.pos.blockshape", "rotation block has shape (n_b, n_b)", where,
+                ctx.check(sh == (nb_val, nb_val), "LAYOUT", f"{tag}.pos.blockshape", "rotation block has shape (n_b, n_b)", where,
                           witness=str(sh))
         else:
             # n_b = 1: a 1x1 empty block
             sh = T.sparse_shape(interp, A) if isinstance(A, (ObjV, Term)) else None
             ctx.check(sh == (Poly.const(1), Poly.const(1)), "LAYOUT", f"{tag}.pos.blockshape", "single rotation: 1x1 block", where, witness=str(sh))
+
+
+def _sym_atoms(v):
+    """symbol atoms occurring anywhere in a value"""
+    from ..voro import find_terms
+    out = set()
+    def num(x):
+        if isinstance(x, Num):
+            for a_ in x.p.all_atoms_deep():
+                if a_[0] == "sym":
+                    out.add(a_)
+    num(v)
+    if isinstance(v, (Term, ObjV, Grid, ListV, TupleV)):
+        for t in find_terms(v, lambda t_: True):
+            for a in t.args:
+                num(a)
+    return out
 
 
 def _atoms_polys(v):
@@ -204,7 +237,7 @@ def _atoms_polys(v):
 
 
 def run(ctx, repo, tier):
-    for nb_ctx in ("sym", "one"):
+    for nb_ctx in ("sym", "one") + ((2, 3) if tier == "thorough" else ()):
         for prop in GETTERS:
             analyse(ctx, repo, prop, nb_ctx)
     # ------------------------------------------------------------ the three getters select their property
